@@ -552,6 +552,14 @@ def register(R):
                         to_int_term(d.lo) == nxt0, to_int_term(d.hi) == nxt1, B(d.base == 'src')), ['C01'])
                     out['window_covers_the_whole_buffer'] = (z3.And(to_int_term(start) == 0, to_int_term(size) == to_int_term(d.hi) - to_int_term(d.lo)), ['C01'])
                     out['buffer_not_larger_than_chunksize'] = (to_int_term(d.hi) - to_int_term(d.lo) <= chunk, ['C11'])
+                    if kind == 'seekable':
+                        # ... and it is a whole chunk unless the source ends first (a source that answers reads in full: a
+                        # part cut short -- e.g. an empty last part when the size is a multiple of the chunk size -- would
+                        # leave the stored object short although every part "is the next unread bytes")
+                        gs = st1.ghost[('stream', fo_of(st1, outer1['transfer_future']).label)]
+                        left = gs['len'] - nxt0
+                        out['a_part_holds_a_whole_chunk_unless_the_source_ends_first'] = (z3.Implies(
+                            gs['full_reads'], to_int_term(d.hi) - to_int_term(d.lo) == z3.If(left < chunk, left, chunk)), ['C01', 'C14'])
                     cfg = st1.obj(outer1['config'])
                     cc, th = cfg.fields['multipart_chunksize'], cfg.fields['multipart_threshold']
                     out['buffer_within_the_documented_bound_max_of_chunksize_and_threshold'] = (
